@@ -42,7 +42,8 @@ def expand_controls(sc):
             out.append([t, a[3], a[4]])
         else:
             out.append([t, k, a])
-    return out
+    # a reset the event loop notices a few iterations late is, at tick granularity, a reset of that connection
+    return [[t, "dropreset", a[0]] if k == "rstlate" else [t, k, a] for t, k, a in out]
 
 
 def parse_model(ans):
@@ -328,6 +329,101 @@ def gen_badreply():
     return out
 
 
+LISTENER_KINDS = ["good", "unreg-on-false", "raise-on-false", "closing-raise", "closing-unreg", "closing-reenter"]
+
+
+def gen_listeners():
+    """Round 8 (seed C11-O): user callbacks registered with the pairing's three dispatchers (availability, events, config
+    changed) that raise, unregister themselves or re-register when they are told 'unavailable' or are called while a
+    close()/shutdown() call is running - in every connector state, followed by re-use and a final close.  The property
+    gives listeners no influence on the pairing's connections: close completes without raising and leaves nothing open.
+    The model has no listeners, so the traces must equal those of the same scenario without them."""
+    out = []
+    states = [
+        ("idle", dict(dials=[["connect", 0]] * 6, verifies=[["ok", 0]] * 6, subs=False), 10001),
+        ("idle-subs", dict(dials=[["connect", 0]] * 6, verifies=[["ok", 700]] * 6, subs=True), 10001),
+        ("post", dict(dials=[["connect", 0]] * 6, verifies=[["ok", 5000]] + [["ok", 0]] * 5, subs=True), 1001),
+        ("inflight", dict(dials=[["connect", 0]] * 6, verifies=[["ok", 0, 0, 5000]] + [["ok", 0]] * 5, subs=False), 1001),
+        ("sleeping", dict(dials=[["refused"]] * 2 + [["connect", 0]] * 5, verifies=[["ok", 0]] * 5, subs=False), 1001),
+        ("dialling", dict(dials=[["hang"]] + [["connect", 0]] * 5, verifies=[["ok", 0]] * 5, subs=False), 1001),
+        ("auth-ended", dict(dials=[["connect", 0]] * 6, verifies=[["auth", 0]] + [["ok", 0]] * 5, subs=False), 1001),
+    ]
+    for name, base, t in states:
+        for lk in LISTENER_KINDS:
+            for ck, ca in (("close", 0), ("shutdown", 0), ("close_then", [1, "ensure", 7]), ("pair", [1, "drop", 1, "close", 0])):
+                tail = [[t + 30001, "ensure", 8], [t + 50001, "zeroconf", [0]], [t + 70001, "close", 0], [t + 90001, "ensure", 9],
+                        [t + 110001, "shutdown", 0]]
+                sc = dict(base, hosts=1, lst=lk, controls=[[1, "ensure", 1], [t, ck, ca]] + tail, end=t + 150001,
+                          tag="listeners/" + name)
+                if ck in ("close_then", "pair"):
+                    sc["oracle_only"] = True
+                out.append(sc)
+    return out
+
+
+def gen_rstlate():
+    """Round 8 (seed C11-P): the accessory resets the connection but the event loop has not noticed yet (the RST sits in
+    the kernel for j loop iterations: write_eof() raises ENOTCONN, a write fails the transport, close() works) when, k
+    iterations later in the same tick, the pairing is closed / shut down / used - with the connection idle, inside
+    connection_made(True), or with its pair-verify in flight; also close first and the reset second; alone (then it is
+    a plain reset: compared with the model); and exactly when the 30 s request timeout fires.  Followed by re-use
+    (two API calls) and a final close, so that a connection left behind shows up on the accessory's side."""
+    out = []
+    states = [
+        ("idle", dict(dials=[["connect", 0]] * 8, verifies=[["ok", 0]] * 8, subs=False), 10001),
+        ("idle-subs", dict(dials=[["connect", 0]] * 8, verifies=[["ok", 300]] * 8, subs=True), 10001),
+        ("post", dict(dials=[["connect", 0]] * 8, verifies=[["ok", 5000]] + [["ok", 0]] * 7, subs=True), 1001),
+        ("inflight", dict(dials=[["connect", 0]] * 8, verifies=[["ok", 0, 0, 5000]] + [["ok", 0]] * 7, subs=False), 1001),
+        ("inflight-bad", dict(dials=[["connect", 0]] * 8, verifies=[["badsig", 0, 0, 5000]] + [["ok", 0]] * 7, subs=False), 1001),
+    ]
+    for name, base, t in states:
+        reuse = [[t + 30000, "ensure", 8], [t + 50000, "ensure", 9], [t + 70000, "close", 0]]
+        for j in (1, 2, 3, 4, 6):
+            out.append(dict(base, hosts=1, controls=[[1, "ensure", 1], [t, "rstlate", [1, j]]] + reuse, end=t + 90001,
+                            tag="rstlate/alone/" + name))
+            for k2, a2 in (("close", 0), ("shutdown", 0), ("ensure", 7), ("badreply", 1), ("soon", 0), ("zeroconf", [0])):
+                for k in (0, 1, 2):
+                    out.append(dict(base, hosts=1, controls=[[1, "ensure", 1], [t, "pair", [k, "rstlate", [1, j], k2, a2]]] + reuse,
+                                    end=t + 90001, tag=f"rstlate/{k2}/" + name, oracle_only=True))
+            for k2 in ("close", "shutdown"):
+                for k in (0, 1, 2):
+                    out.append(dict(base, hosts=1, controls=[[1, "ensure", 1], [t, "pair", [k, k2, 0, "rstlate", [1, j]]]] + reuse,
+                                    end=t + 90001, tag=f"rstlate/after-{k2}/" + name, oracle_only=True))
+    # the reset is pending when the 30 s request timeout gives up on the connection (_send_lines half-closes it there)
+    for j in (1, 3):
+        for kind in ("ok", "badsig"):
+            t = 1 + THIRTY_S
+            out.append(dict(hosts=1, subs=False, dials=[["connect", 0]] * 8, verifies=[[kind, 0, 0, NEVER]] + [["ok", 0]] * 7,
+                            controls=[[1, "ensure", 1], [t, "rstlate", [1, j]], [t + 2 * SIXTY_S + 1, "ensure", 8],
+                                      [t + 3 * SIXTY_S + 1, "close", 0]], end=t + 4 * SIXTY_S, tag="rstlate/timeout/inflight",
+                            oracle_only=True))
+    return out
+
+
+def gen_pollers():
+    """Round 8 (seed C10-O): callers that merely wait for the connection arrive periodically during an outage (a poller,
+    several entities, callers with their own short timeout = cancel): the attempts must keep the connector's growing
+    back-off, not the callers' rate.  No other control event, so every gap rule applies."""
+    out = []
+    outages = {"refused": (lambda nh: [["refused"]] * (40 * nh), []),
+               "badsig": (lambda nh: [["connect", 0]] * 40, [["badsig", 0]] * 40),
+               "hang-then-refused": (lambda nh: [["hang"]] * nh + [["refused"]] * (40 * nh), []),
+               "silent": (lambda nh: [["connect", 0]] * 40, [["ok", 0, 0, NEVER]] + [["peerclose", 0, 0, 2000]] * 39)}
+    for oname, (mk, verifs) in outages.items():
+        for period in (410, 3001, 9000, 50000):
+            for own_timeout in (0, 200):
+                for nh in (1, 2):
+                    ctr, t = [[1, "ensure", 1]], 1
+                    for w in range(2, 14):
+                        t += period
+                        ctr.append([t | 1, "ensure", w])
+                        if own_timeout:
+                            ctr.append([(t | 1) + own_timeout, "cancel", w])
+                    out.append(dict(hosts=nh, subs=False, dials=mk(nh), verifies=verifs, controls=ctr,
+                                    end=(t + 5 * SIXTY_S) | 1, tag="pollers/" + oname))
+    return out
+
+
 def rand_vdelay(r, p):
     """0 with probability 1-p; otherwise a reaction delay biased to the boundaries (10 s waiter deadline, 30 s request
     timeout; exactly 30 s is a tie the model flags) or no reaction at all."""
@@ -384,7 +480,10 @@ def gen_random(r, n, max_time=600000):
             elif x < 0.6 and not shut:
                 ctr.append([tt, "soon", 0])
             elif x < 0.77:
-                ctr.append([tt, r.choice(["drop", "dropreset"]), r.randrange(1, 6)])
+                if r.random() < 0.25:
+                    ctr.append([tt, "rstlate", [r.randrange(1, 6), r.choice([1, 2, 3, 5])]])
+                else:
+                    ctr.append([tt, r.choice(["drop", "dropreset"]), r.randrange(1, 6)])
             elif x < 0.82:
                 ctr.append([tt, "badreply", r.randrange(4)])
             elif x < 0.92:
@@ -402,8 +501,11 @@ def gen_random(r, n, max_time=600000):
         end = (t + r.choice([5001, 100001, max_time])) | 1
         while end in seen:
             end += 2
-        out.append(dict(hosts=nh, dials=dials, verifies=verifs, controls=cc, end=end, subs=r.random() < 0.4, tag="random",
-                        style=r.choice(["v4", "v4", "v6"])))
+        sc = dict(hosts=nh, dials=dials, verifies=verifs, controls=cc, end=end, subs=r.random() < 0.4, tag="random",
+                  style=r.choice(["v4", "v4", "v6"]))
+        if r.random() < 0.35:
+            sc["lst"] = r.choice(LISTENER_KINDS)
+        out.append(sc)
     return out
 
 
@@ -494,8 +596,24 @@ def oracle_c10(sc, tr):
     for t, n in dial_ticks.items():
         if n > nh_max * (nh_max + 1):
             bad.append(("busy-loop", f"{n} dials at tick {t} with {nh_max} hosts"))
-    # back-off bounds between passes when nothing external hastens the retry
-    ext = sorted(c[0] for c in sc.get("controls", []))
+    # back-off bounds between passes when nothing external hastens the retry.  A caller that merely WAITS for the
+    # connection (ensure) or gives up waiting (cancel) while the connector task is alive and no connection is open - the
+    # connector is dialling or in its back-off sleep - is not such an event: the property lets only a zeroconf update /
+    # reconnect_soon hasten a retry (seed C10-O: ensure_connection woke the sleeping connector, attempts at the callers'
+    # rate).  What the pairing looked like is read from the snapshot taken just before the control was applied.
+    pre = {}
+    for e in tr:
+        if e[1] == "snap" and e[2] == "pre":
+            pre.setdefault(e[0], e)
+    by_tick = {}
+    for c in sc.get("controls", []):
+        by_tick.setdefault(c[0], []).append(c[1])
+    inert = {t for t, ks in by_tick.items() if all(k in ("ensure", "cancel") for k in ks) and t in pre
+             and pre[t][5] >= 1 and not pre[t][3] and not pre[t][4]}
+    ext = sorted(c[0] for c in sc.get("controls", []) if c[0] not in inert)
+    # a tick at which callers only began / stopped waiting and that is not inert (the ensure started the connector)
+    # explains an attempt in that very tick, but nothing about the time from that attempt to the next one
+    only_wait = {t for t, ks in by_tick.items() if t not in inert and all(k in ("ensure", "cancel") for k in ks)}
     dts = sorted(dial_ticks)
     hangs = sorted(e[0] for e in tr if e[1] == "dial" and e[3] == "hang")
     verif_evs = [e for e in tr if e[1] == "verify"]
@@ -509,7 +627,7 @@ def oracle_c10(sc, tr):
         """longest time the pair-verify requests that arrived in [lo, hi) may stay in flight (30 s request timeout)"""
         return sum(min(_vdelay_of(sc, e[2]), THIRTY_S) for e in verif_evs if lo <= e[0] < hi)
     for a, b in zip(dts, dts[1:]):
-        if any(a <= x <= b for x in ext):
+        if any(a <= x <= b for x in ext if not (x == a and x in only_wait and b > a)):
             continue
         gap = b - a
         nhang = sum(1 for h in hangs if a <= h < b)       # every hanging dial round adds its 10 s timeout
@@ -528,7 +646,13 @@ def oracle_c10(sc, tr):
             # established (pair-verify ok) when the accessory closed it in an orderly way (FIN) at tick b
             fresh = any(e[3] in ("okfin", "okbad") and closed_first.get(e[2]) == b for e in verif_evs if a <= e[0] < b)
             if not fresh and (not wrong or (any(h in cands_b for h in wrong) and not relisted)):
-                bad.append(("gap-too-short", f"attempts at {a} and {b} only {gap} ticks apart"))
+                waiting = [x for x in sorted(inert) if a <= x <= b]
+                if waiting:
+                    bad.append(("waiter-hastened-retry", f"attempts at {a} and {b} only {gap} ticks apart: the connector was "
+                                f"alive and between attempts when a caller began / stopped waiting for the connection at tick(s) "
+                                f"{waiting[:4]}; waiting must not cut the back-off short"))
+                else:
+                    bad.append(("gap-too-short", f"attempts at {a} and {b} only {gap} ticks apart"))
     # ... and a chain of such immediate retries is as bounded as the dials inside one tick
     chain = 0
     for a, b in zip(dts, dts[1:]):
@@ -714,6 +838,27 @@ def _slowest(sc):
             else "never(>30s)")
 
 
+def _late_rst(sc):
+    js = []
+    for c in sc.get("controls", []):
+        if c[1] == "rstlate":
+            js.append(c[2][1])
+        elif c[1] == "pair":
+            js += [a[1] for k, a in ((c[2][1], c[2][2]), (c[2][3], c[2][4])) if k == "rstlate"]
+    return "none" if not js else f"noticed-after-{min(max(js), 6)}-iterations"
+
+
+def _n_inert(sc, tr):
+    """how many ensure / cancel controls met a live connector with nothing open (dialling or sleeping)"""
+    pre = {}
+    for e in tr:
+        if e[1] == "snap" and e[2] == "pre":
+            pre.setdefault(e[0], e)
+    n = sum(1 for c in expand_controls(sc) if c[1] in ("ensure", "cancel") and c[0] in pre and pre[c[0]][5] >= 1
+            and not pre[c[0]][3])
+    return min(n, 12)
+
+
 def run_core(ctx, pid, oracle, gens, corr_name):
     import c10sim
     tier, seed = ctx["tier"], ctx["seed"]
@@ -759,6 +904,9 @@ def run_core(ctx, pid, oracle, gens, corr_name):
                  address_style=sc.get("style", "v4"),
                  slowest_verify=_slowest(sc), inflight_control=(sc.get("tag", "").split("/") + ["-", "-"])[1]
                  if sc.get("tag", "").startswith("inflight/") else "-",
+                 listener=sc.get("lst", "none"),
+                 late_rst=_late_rst(sc),
+                 waiters_while_connector_alive=_n_inert(sc, itrace),
                  controls=len(sc.get("controls", [])))
     if not ctx.get("replay"):
         step = max(1, len(scs) // 6)
